@@ -178,7 +178,9 @@ func (f *Function) DotNotNil(name string, arg interface{}) *Function {
 		return f
 	}
 
-	fn, err := Func(name, arg)
+	// The argument was set explicitly: keep it even when it is a zero value (fill(0.0)).
+	// Func would return a nil node for it.
+	fn, err := FuncWithZero(name, arg)
 	if err != nil {
 		f.err = err
 		return f
